@@ -13,7 +13,8 @@ from vlib import Hit, Result, diff_lines, sh
 
 ASSUMPTIONS = [
     'sequentially consistent interleaving at the granularity one step = one atomic access / one critical section',
-    'fragment without yield_to (next_thrd); thread-object recycling and reference counts are not modelled (each incarnation of a thread object is checked as a fresh task; sched_recycle_fresh is not proved)',
+    'fragment without yield_to (next_thrd); thread-object recycling IS modelled (reference counts, terminated_items, heaps, rebind with tag reset): C01_sched_recycle_fresh; the harness still splits the chains of a thread object at rebind (hook 105), which the theorem justifies for counted handles; a waker inside set_thread_state holds an uncounted thread_id_type and CAN act on the next incarnation (C01_sched_waker_in_flight_stale_refuted: a spurious wake-up, accepted by the acceptor as a SiteSet transition of the new chain)',
+    'counted references held by user code (pika::thread, ids returned by register_thread) are not modelled: they only delay recycling; the do_yield keep-alive reference is attached to the store that ends the phase / the CAS that starts the next (it is never the first or last reference)',
     'state_ex is constantly `signaled` in the modelled fragment (no timed suspension, no abort); the acceptor compares (state, tag) only',
     'queue back-ends (lock-free FIFO/LIFO, ABP deque) are an abstract bag with an oracle-chosen pop: their own correctness is C17 (deque ABA F15 is owned there)',
     'TRACE mode: the hooks sit at the CAS sites inside thread_data.hpp; a transition performed through any other path would be invisible (none exists in the pinned source)',
@@ -107,12 +108,14 @@ def model_search(ctx, r, prop, drv, n):
         f = dict(x.split('=', 1) for x in ln.split(' ')[3:])
         r.evaluations += 1
         r.count('model_run_idle=' + f['idle'])
-        if int(f['ntasks']) >= 2:
+        if int(f.get('ninc', '0')) > int(f['ntasks']):
+            r.count('model_run_with_recycled_objects')
+        if int(f.get('ninc', f['ntasks'])) >= 2:
             r.nontrivial(ln)
         idx = int(ln.split(' ')[2])
         if f['ok'] != '1':
             r.hits.append(Hit('model', prop + ':model_monitor',
-                              'the model violates its own monitor (phases alternate / single runner / chain accepted / NoDup queue) on ' + ins[idx],
+                              'the model violates its own monitor (phases alternate per incarnation / single runner / chain accepted / NoDup queue / recycled objects terminated, count 0, unreferenced) on ' + ins[idx],
                               {'model_run': ins[idx], 'out': ln}))
         if f['lost'] != '0':
             r.hits.append(Hit('model', prop + ':model_lost_wakeup',
